@@ -903,8 +903,12 @@ func (c *Ctx) smtFuncSort(name string) (string, bool) {
 	switch name {
 	case "pow2", "go.div", "go.mod", "nl.div", "nl.mod", "nl.mul", "gs.len", "gs.at", "band8", "bor8", "bxor8", "bnot8", "shl8", "shr8", "val8", "bit.and", "bit.or", "bit.xor", "bit.andnot":
 		return "Int", true
-	case "gs.lt", "bit8":
+	case "gs.lt", "bit8", "bs.lt":
 		return "Bool", true
+	case "bs.pfx", "bseq", "bseq.str":
+		return "BSeq", true
+	case "bs.len":
+		return "Int", true
 	case "gs.sub", "gs.cat":
 		return "Str", true
 	}
@@ -1028,6 +1032,19 @@ func (e *SpecEnv) call(x *ECall) TV {
 	case "store":
 		a, i, v := e.eval(x.Args[0]), e.eval(x.Args[1]), e.eval(x.Args[2])
 		return specTV(fmt.Sprintf("(store %s %s %s)", a.T, i.T, v.T), a.Sort)
+	case "bytes":
+		// bytes(x): the content of a []byte or string as an abstract byte sequence (sort BSeq)
+		v := e.eval(x.Args[0])
+		c.usesBSeq = true
+		if v.Sort == "Str" {
+			return specTV(fmt.Sprintf("(bseq.str %s)", v.T), "BSeq")
+		}
+		u, ok := c.under(v.Ty).(*types.Slice)
+		if !ok {
+			efail("bytes() of non-slice")
+		}
+		cn, cs := c.elemComp(u.Elem())
+		return specTV(fmt.Sprintf("(bseq (select %s (s.base %s)) (s.off %s) (s.len %s))", compIn(c, e.Heap, cn, cs), v.T, v.T, v.T), "BSeq")
 	case "elems":
 		// elems(s): the backing array (Array Int T) of slice s, indexed by absolute position
 		v := e.eval(x.Args[0])
@@ -1085,6 +1102,9 @@ func (e *SpecEnv) call(x *ECall) TV {
 		_ = ax
 	}
 	if sort, ok := c.smtFuncSort(x.Fun); ok {
+		if strings.HasPrefix(x.Fun, "bs.") || strings.HasPrefix(x.Fun, "bseq") {
+			c.usesBSeq = true
+		}
 		var args []string
 		for _, a := range x.Args {
 			v := e.eval(a)
@@ -1180,10 +1200,18 @@ func (e *SpecEnv) addr(x Expr) (*Loc, types.Type) {
 		efail("&: %s is not a struct", target)
 	}
 	path := fieldPath(target, sel.Name)
-	if len(path) != 1 {
-		efail("&: field %s not found", sel.Name)
+	if len(path) == 0 {
+		efail("&: field %s not found in %s", sel.Name, target)
 	}
-	return l.with(PathSel{Field: path[0], Cont: target}), c.structOf(target).Field(path[0]).Type()
+	cur := target
+	for _, idx := range path {
+		if c.structOf(cur) == nil {
+			efail("&: promoted field %s through an embedded pointer is not supported", sel.Name)
+		}
+		l = l.with(PathSel{Field: idx, Cont: cur})
+		cur = c.structOf(cur).Field(idx).Type()
+	}
+	return l, cur
 }
 
 
